@@ -113,38 +113,45 @@ type fmtFlags struct {
 }
 
 func (ex *Exec) sprintf(fr *frame, format value, args []value) value {
-	f, ok := format.(string)
-	if !ok {
-		// symbolic text used as a format (Client.Auth does this): octets that
-		// cannot be '%' are literals; a feasible '%' is outside the encoding.
-		fo := ex.strOctets(format)
-		var lit []value
-		conc := make([]byte, len(fo))
-		for i, o := range fo {
-			if u, isC := o.(uint64); isC {
-				conc[i] = byte(u)
-				continue
+	// The format may be symbolic text (Client.Auth passes the command line as
+	// the format). Octets are literals unless they can be '%': that is decided
+	// by the solver (fork); after a '%' the flag/width/verb octets are
+	// concretised (fork over their feasible values).
+	fo := ex.strOctets(format)
+	fb := make([]byte, len(fo))   // concrete view used by the parser below
+	lit := make([]value, len(fo)) // what to emit for a literal position
+	for i := 0; i < len(fo); i++ {
+		o := fo[i]
+		lit[i] = o
+		if u, isC := o.(uint64); isC {
+			fb[i] = byte(u)
+			continue
+		}
+		if ex.branch(ex.eqv(nil, o, uint64('%'))) {
+			fb[i] = '%'
+			lit[i] = uint64('%')
+			// concretise the verb syntax that follows
+			j := i + 1
+			for j < len(fo) {
+				var b byte
+				if u, isC := fo[j].(uint64); isC {
+					b = byte(u)
+				} else {
+					b = byte(ex.concretize(fo[j], 256, "fmt verb syntax"))
+				}
+				fb[j] = b
+				lit[j] = uint64(b)
+				j++
+				if !(b == '0' || b == '-' || b == '+' || b == '#' || b == ' ' || b == '.' || (b >= '1' && b <= '9')) {
+					break
+				}
 			}
-			if ex.branch(ex.eqv(nil, o, uint64('%'))) {
-				ex.inconclusive("fmt: symbolic '%' in format string")
-			}
-			conc[i] = 0
+			i = j - 1
+			continue
 		}
-		hasVerb := false
-		for _, b := range conc {
-			if b == '%' {
-				hasVerb = true
-			}
-		}
-		if hasVerb {
-			ex.inconclusive("fmt: format string mixes verbs with symbolic text")
-		}
-		lit = append(lit, fo...)
-		if len(args) > 0 {
-			ex.inconclusive("fmt: symbolic format string with arguments")
-		}
-		return mkStr(lit)
+		fb[i] = 'x' // any non-'%' stand-in: the parser only looks for '%'
 	}
+	f := string(fb)
 	var out []value
 	emit := func(s string) {
 		for i := 0; i < len(s); i++ {
@@ -154,7 +161,7 @@ func (ex *Exec) sprintf(fr *frame, format value, args []value) value {
 	argi := 0
 	for i := 0; i < len(f); {
 		if f[i] != '%' {
-			out = append(out, uint64(f[i]))
+			out = append(out, lit[i])
 			i++
 			continue
 		}
